@@ -1,22 +1,41 @@
 # -*- coding: utf-8 -*-
 """C12 — Configuration is obeyed with the documented precedence."""
 from bounded import config_prec, corpus
-from pyvc.checklib import Check, Finding
+from pyvc.checklib import Check, Finding, run_selftest
+from pyvc.engine import Engine
 
 META = {
     "level": "other",
-    "technique": "bounded stand-in only: layered configurations through the real config.New / apply_rules.configure_rules path compared with the documented precedence; no deductive part (the configure_* functions work on __dict__ and nested YAML dictionaries, outside the verifier's subset)",
-    "text": "BOUNDED ONLY: for seeded (rule, attribute) pairs and every subset of the five configuration levels (global, group, rule id, file_list, file_rules; the rule level optionally in two -c files) the effective attribute is the value of the highest-priority applicable level, option objects agree with the attribute, and unknown or deprecated rule names raise a configuration error. That the effective value is what the rule acts on is carried by C03/C13 (disable, fixable, severity gating, proved) and C14 (severity in reports).",
-    "note": "Not under contract: vsg/rule.py configure_* (setattr/__dict__), vsg/config.py. Universe: seeded scenarios over the ~960 real rule objects.",
+    "technique": "contract-based deductive verification (pyvc) of the three configuration levels of vsg/rule.py (global, group, rule id), of their composition Rule.configure and of the unknown-rule check of rule_list, over dictionary objects (key set + key -> reference map) with a universally quantified ghost attribute name; the per-file levels, the merging of several -c files and 'the effective value is what the rule acts on' by a bounded stand-in (layered configurations through the real config.New / apply_rules.configure_rules)",
+    "text": "Proved for every attribute name ga, every rule object and every configuration dictionary of the documented shape (sections that exist are dictionaries): after Rule.configure the entry self.__dict__[ga] is the value of the rule-id section if it mentions ga, else of a group of the rule that mentions it, else of the global section (only for names of the rule's configurable set), else the value it had (style default); a group or rule-id section cannot add an attribute; the same order for the severity; option objects receive the rule-id value; a deprecated rule that is configured returns its message and is not configured; the configuration dictionaries themselves are not modified (object-precise frame); _validate_configuration_rule_exists raises ConfigurationError exactly when a key of the rule section is neither 'global', 'group' nor the id of a rule, independently of any state. BOUNDED: per-file levels (file_list / file_rules), later -c files over earlier ones, path spellings, and that rule_list.configure calls these functions for every rule.",
+    "note": "Assumption A10: r.x reads r.__dict__['x'] (Python semantics; the contracts speak about __dict__ entries). get_severity_named is a stub (valid configurations name severities that exist). Not under contract: rule_list.configure (debug flag, message assembly), vsg/config.py (process_config_file: 68 of 72 obligations, not claimed), apply_rules.configure_rules_per_option.",
 }
+
+QUALS = [
+    "vsg.rule.configure_global_rule_attributes",
+    "vsg.rule.configure_attribute",
+    "vsg.rule.configure_group_rule_attributes",
+    "vsg.rule.configure_rule_attributes",
+    "vsg.rule.Rule.configure",
+    "vsg.deprecated_rule.Rule.print_output",
+    "vsg.rule_list.rule_list.get_list_of_rule_names",
+    "vsg.rule_list.rule_does_not_exist_in_list",
+    "vsg.rule_list.rule_list._validate_configuration_rule_exists",
+]
 
 
 def run():
     c = Check("C12", "other")
+    c.engine = Engine()
+    c.deductive(QUALS)
     n = 96 if c.tier == "quick" else 3000
     res = corpus.pmap(config_prec.scenario, [c.seed * 100000 + i for i in range(n)], chunksize=4)
     c.bounded["layered_configurations"] = {"evaluations": len(res), "distinct_nontrivial": len({(r[2]["rule"], r[2]["attr"], tuple(r[2]["levels"])) for r in res if r[2]["levels"]}), "rule": "seeded rule x attribute x subset of the five levels through the real configuration path; non-trivial = at least one level sets the attribute; distinct by (rule, attribute, levels)"}
     for seed, probs, info in res:
         for p in probs[:1]:
             c.findings.append(Finding("bounded", "precedence", p, {"scenario_seed": seed, "scenario": info, "observed": p, "how_to_rerun": "cd /verif && /venv/bin/python -c 'from bounded import config_prec; print(config_prec.scenario(%d))'" % seed}, "%s.%s" % (info["rule"], info["attr"])))
+    if c.tier == "thorough":
+        run_selftest(c, ["mutants_configure.py"], lambda eng: QUALS)
+    c.trusted += ["assumed contract: %s — %s" % (q, ct["trusted"]) for q, ct in sorted(c.engine.contracts.items()) if ct.get("trusted") and ("configure" in q or "severity" in q or "print_output" in q)]
+    c.trusted.append("A10: attribute access r.x is the dictionary entry r.__dict__['x'] (Python semantics, not modelled: the contracts state the entries)")
     return c.finish({"explanation": META["text"]})
